@@ -38,7 +38,7 @@ fn part_a(a: &Args, out: &mut Out, rng: &mut Rng) {
         let mut units: Vec<i32> = Vec::new();
         for v in 1..=n { units.push(v); units.push(-v); }
         // quick: a sample of the literals; thorough: all
-        if !a.thorough() { r2.shuffle(&mut units); units.truncate(3); }
+        if !a.thorough() { r2.shuffle(&mut units); units.truncate(8); }
         // new features
         units.push(n + 1);
         if r2.chance(0.3) { units.push(-(n + 1 + r2.below(3) as i32)); }
